@@ -385,6 +385,81 @@ fn sub_program(kind: usize, def: Option<Q>, a: usize, b: usize) -> Option<Expect
 }
 
 // ---------------------------------------------------------------------------
+// family F: function names, results and parameters
+// ---------------------------------------------------------------------------
+
+fn fn_program(kind: usize, def: Option<Q>, a: usize, b: usize) -> Option<Expect> {
+    let d = def.unwrap_or(Q::Sng);
+    let head = def.map(|q| format!("{} N\n", q.def_kw())).unwrap_or_default();
+    let rows0: u32 = if def.is_some() { 1 } else { 0 };
+    let res = |s: Sp| s.unwrap_or(d);
+    match kind {
+        // a FUNCTION declared with spelling s0 and called with spelling s: the same function iff the types agree
+        0 => {
+            let s0 = *SPELLINGS.get(a)?;
+            let s = *SPELLINGS.get(b)?;
+            let (q0, q) = (res(s0), res(s));
+            if s.is_none() && q != q0 {
+                // a bare call of a function declared with a suffix: the documented rules do not say
+                // whether the base name alone identifies the function (the implementation: it does)
+                return None;
+            }
+            let text = format!(
+                "{}DECLARE FUNCTION {} ()\nPRINT {}\nFUNCTION {}\n{} = {}\nEND FUNCTION\n",
+                head,
+                spell("Nam", s0, 0),
+                spell("Nam", s, 1),
+                spell("Nam", s0, 2),
+                spell("Nam", s0, 0),
+                lit(q0, 7).0
+            );
+            let want = if q == q0 { Ok(format!("{}\r\n", lit(q0, 7).1)) } else { Err(rows0 + 2) };
+            Some(Expect { text, want, label: format!("FUNCTION declared {:?}, called {:?}, default {:?}", s0, s, def), sigkey: "function name spelling".into() })
+        }
+        // inside FUNCTION Nam<s0> the result is assigned through spelling s
+        1 => {
+            let s0 = *SPELLINGS.get(a)?;
+            let s = *SPELLINGS.get(b)?;
+            let (q0, q) = (res(s0), res(s));
+            if q != q0 {
+                // another suffix inside the function: whether it is a local or an error is not stated
+                return None;
+            }
+            let text = format!(
+                "{}DECLARE FUNCTION {} ()\nPRINT {}\nFUNCTION {}\n{} = {}\nEND FUNCTION\n",
+                head,
+                spell("Nam", s0, 0),
+                spell("Nam", s0, 1),
+                spell("Nam", s0, 2),
+                spell("Nam", s, 1),
+                lit(q0, 8).0
+            );
+            Some(Expect { text, want: Ok(format!("{}\r\n", lit(q0, 8).1)), label: format!("FUNCTION {:?}, result assigned through {:?}, default {:?}", s0, s, def), sigkey: "function result spelling".into() })
+        }
+        // a bare or suffixed parameter takes a variable by reference only if the types agree
+        2 => {
+            let s0 = *SPELLINGS.get(a)?;
+            let q0 = res(s0);
+            let q = *QS.get(b)?;
+            let arg = format!("Xv{}", q.sfx());
+            let text = format!("{}DECLARE SUB P ({})\n{} = {}\nP {}\nPRINT {}\nSUB P ({})\n{} = {}\nEND SUB\n", head, spell("Nam", s0, 0), arg, lit(q, 5).0, arg, arg, spell("Nam", s0, 1), spell("Nam", s0, 2), lit(q0, 9).0);
+            let want = if q == q0 { Ok(format!("{}\r\n", lit(q, 9).1)) } else { Err(rows0 + 3) };
+            Some(Expect { text, want, label: format!("parameter {:?} given a {:?} variable, default {:?}", s0, q, def), sigkey: "parameter type".into() })
+        }
+        // an extended parameter: bare and the matching suffix denote it, another suffix is rejected
+        _ => {
+            let t = *QS.get(a)?;
+            let s = *SPELLINGS.get(b)?;
+            let legal = s.map(|q| q == t).unwrap_or(true);
+            let arg = format!("Xv{}", t.sfx());
+            let text = format!("{}DECLARE SUB P (Nam AS {})\n{} = {}\nP {}\nPRINT {}\nSUB P (Nam AS {})\n{} = {}\nEND SUB\n", head, t.type_name(), arg, lit(t, 5).0, arg, arg, t.type_name(), spell("Nam", s, 1), lit(s.unwrap_or(t), 9).0);
+            let want = if legal { Ok(format!("{}\r\n", lit(t, 9).1)) } else { Err(rows0 + 6) };
+            Some(Expect { text, want, label: format!("parameter AS {:?}, spelling {:?} inside, default {:?}", t, s, def), sigkey: "extended parameter".into() })
+        }
+    }
+}
+
+// ---------------------------------------------------------------------------
 
 fn judge(e: &Expect, g: &str, acc_hist: &mut BTreeMap<String, u64>, bads: &mut Vec<Value>, replay: Value) {
     let o = run_pipeline(&e.text, &RunOpts { budget: 300_000, ..RunOpts::default() });
@@ -474,7 +549,7 @@ pub fn worker(case: &Value) -> Value {
                 judge(&e, g, &mut hist, &mut bads, json!({"g": g, "quick": quick, "lo": idx, "hi": idx + 1}));
             }
         }
-        _ => {
+        "fn" | "sub" => {
             for idx in lo..hi {
                 let b = idx % 6;
                 let a = (idx / 6) % 6;
@@ -483,7 +558,8 @@ pub fn worker(case: &Value) -> Value {
                 if kind > 4 {
                     continue;
                 }
-                if let Some(e) = sub_program(kind, DEFS[df], a, b) {
+                let e = if g == "fn" { if kind > 3 { None } else { fn_program(kind, DEFS[df], a, b) } } else { sub_program(kind, DEFS[df], a, b) };
+                if let Some(e) = e {
                     n += 1;
                     if sample.is_null() {
                         sample = json!({"group": g, "label": e.label, "text": e.text});
@@ -492,6 +568,7 @@ pub fn worker(case: &Value) -> Value {
                 }
             }
         }
+        _ => {}
     }
     json!({"n": n, "nontrivial": n, "hist": hist, "bad": bads, "sample": sample})
 }
@@ -508,6 +585,7 @@ pub fn drive(tier: &str) -> i32 {
         ("deftype", def_configs(quick).len()),
         ("global", DEFS.len() * decls().len() * use_sequences(if quick { 2 } else { 3 }).len()),
         ("sub", 5 * 216),
+        ("fn", 4 * 216),
     ];
     for (g, t) in totals {
         let chunk = if g == "deftype" { 20 } else { 150 };
@@ -527,7 +605,7 @@ pub fn drive(tier: &str) -> i32 {
         run.capped = true;
     }
     let mut ev = Evidence::new("exploration");
-    ev.set("rule", "deftype: every DEFINT / DEFLNG / DEFSNG / DEFDBL / DEFSTR statement over every single letter and every range with ends in {A, B, M, Y, Z} (thorough: all 325 ranges), lower / mixed case of keyword and range ends, two ranges in one statement and a later statement overriding an earlier one; each program assigns the five suffixed variables of a name starting with each of the 26 letters and prints the bare name (in another letter case): the model's 26-entry default table predicts which one it is. global: default type of the first letter (none or one of 5 DEFtype statements) x declaration (none, DIM name AS each of 5 types, DIM with each of the 6 spellings) x every sequence of 1..2 (thorough 3) assignments through the 6 spellings (bare and five suffixes) in rotating letter case: the model predicts the first spelling the checker must reject (after DIM AS type only the bare name and the matching suffix are legal) or, if none, the value each spelling prints. sub: an unshared global against a local of the same spelling; DIM SHARED with each spelling while another spelling is used first in the SUB; DIM SHARED AS type against each spelling; a global CONST read and assigned in a SUB; a parameter in each spelling with another spelling used first — each under every default type.");
+    ev.set("rule", "deftype: every DEFINT / DEFLNG / DEFSNG / DEFDBL / DEFSTR statement over every single letter and every range with ends in {A, B, M, Y, Z} (thorough: all 325 ranges), lower / mixed case of keyword and range ends, two ranges in one statement and a later statement overriding an earlier one; each program assigns the five suffixed variables of a name starting with each of the 26 letters and prints the bare name (in another letter case): the model's 26-entry default table predicts which one it is. global: default type of the first letter (none or one of 5 DEFtype statements) x declaration (none, DIM name AS each of 5 types, DIM with each of the 6 spellings) x every sequence of 1..2 (thorough 3) assignments through the 6 spellings (bare and five suffixes) in rotating letter case: the model predicts the first spelling the checker must reject (after DIM AS type only the bare name and the matching suffix are legal) or, if none, the value each spelling prints. sub: an unshared global against a local of the same spelling; DIM SHARED with each spelling while another spelling is used first in the SUB; DIM SHARED AS type against each spelling; a global CONST read and assigned in a SUB; a parameter in each spelling with another spelling used first — each under every default type. fn: a FUNCTION declared with each spelling and called with each spelling (the same function iff the types agree), its result assigned through each spelling of the same type, a parameter in each spelling given a variable of each type by reference, a parameter declared AS each type used through each spelling inside — each under every default type.");
     ev.set("exhaustive", !run.capped);
     ev.set("plan", json!(plan));
     ev.set("distinct_nontrivial", run.nontrivial);
